@@ -499,3 +499,63 @@ func vh_C12_computed() {
 	}
 	vReach("computed")
 }
+
+// vh_C12_shared: a value in which one array or hash *object* occurs more
+// than once (built through a variable) prints exactly like the value built
+// from separate equal objects, and so reads back: printing has no memory of
+// what it printed before.
+var vC12Shared = []struct{ shared, distinct string }{
+	{`(def a [1 7]) [a 3 a]`, `[[1 7] 3 [1 7]]`},
+	{`(def a [1 7]) [[a] [a] a]`, `[[[1 7]] [[1 7]] [1 7]]`},
+	{`(def h (hash k: 7)) [h h]`, `[(hash k: 7) (hash k: 7)]`},
+	{`(def a [7]) (hash x: a y: a)`, `(hash x: [7] y: [7])`},
+	{`(def a [7]) (list a a)`, `(list [7] [7])`},
+	{`(def h (hash k: 7)) (hash p: h q: [h h])`, `(hash p: (hash k: 7) q: [(hash k: 7) (hash k: 7)])`},
+	{`(def a []) [a a]`, `[[] []]`},
+	{`(def a [1 7]) (def b [a a]) [b a b]`, `[[[1 7] [1 7]] [1 7] [[1 7] [1 7]]]`},
+	{`(def a [1 7]) (str a) [a]`, `[[1 7]]`},
+}
+
+func vh_C12_shared() {
+	vFormatOpaque(true)
+	env := vStdEnvs(2)[0]
+	twin := vStdEnvPool[1]
+	k := vChoice("value", len(vC12Shared))
+	h := vSmallInt("h")
+	run := func(e *Zlisp, src string) (Sexp, bool) {
+		var r Sexp
+		for _, f := range vT(e, src, h) {
+			var err error
+			var p bool
+			r, err, p = vEval(e, f)
+			if err != nil || p {
+				return nil, false
+			}
+		}
+		return r, true
+	}
+	sv, ok1 := run(env, vC12Shared[k].shared)
+	dv, ok2 := run(twin, vC12Shared[k].distinct)
+	if !ok1 || !ok2 {
+		vAssert(false, "values-build")
+		return
+	}
+	st, dt := sv.SexpString(nil), dv.SexpString(nil)
+	vAssert(st == dt, "shared-objects-print-like-separate-equal-ones")
+	// printed twice: the same text again
+	vAssert(sv.SexpString(nil) == st, "printing-again-gives-the-same-text")
+	hasHash := false
+	for i := range st {
+		if st[i] == '{' {
+			hasHash = true // printed hashes are not data syntax (outside the claim)
+		}
+	}
+	if !hasHash {
+		back, ok := vReadOne(env, st)
+		vAssert(ok, "printed-value-with-shared-objects-is-readable")
+		if ok {
+			vAssert(back.SexpString(nil) == dt, "printed-value-with-shared-objects-reads-back")
+		}
+	}
+	vReach("shared")
+}
